@@ -22,7 +22,7 @@ type c05Case struct {
 	AgeOff     int    `json:"age_minus_duration_s"`
 	NR         string `json:"noRestartsDuration"` // unset 0 30s
 	RestartOff string `json:"last_restart"`       // none or offset (s) of now relative to restart+NR
-	Pause      string `json:"pause"`              // none ann ers both annfalse
+	Pause      string `json:"pause"`              // none ann ers both annfalse ann+ersfalse
 	Unpause    bool   `json:"unpause_annotation"`
 	Valid      string `json:"valid_annotation"` // none this other
 	Failed     string `json:"canary_failed_condition"`
@@ -94,6 +94,10 @@ func c05Build(c c05Case, now time.Time) *w.State {
 	if c.Pause == "ers" || c.Pause == "both" {
 		add(v1.ConditionTypeCanaryPaused, corev1.ConditionTrue, now.Add(-20*time.Second))
 	}
+	if c.Pause == "ann+ersfalse" {
+		// the replica set went through a pause / unpause cycle before: it carries a Canary-Paused condition that is False
+		add(v1.ConditionTypeCanaryPaused, corev1.ConditionFalse, now.Add(-20*time.Second))
+	}
 	switch c.Failed {
 	case "True":
 		add(v1.ConditionTypeCanaryFailed, corev1.ConditionTrue, now.Add(-10*time.Second))
@@ -102,7 +106,7 @@ func c05Build(c c05Case, now time.Time) *w.State {
 	}
 	eds.Annotations = map[string]string{}
 	switch c.Pause {
-	case "ann", "both":
+	case "ann", "both", "ann+ersfalse":
 		eds.Annotations[v1.ExtendedDaemonSetCanaryPausedAnnotationKey] = "true"
 	case "annfalse":
 		eds.Annotations[v1.ExtendedDaemonSetCanaryPausedAnnotationKey] = "false"
@@ -144,7 +148,7 @@ func c05Cases() []c05Case {
 		for _, age := range []int{-1, 0, 1} {
 			for _, nr := range []string{"unset", "0", "30s"} {
 				for _, ro := range []string{"none", "-1", "0", "1"} {
-					for _, p := range []string{"none", "ann", "ers", "both", "annfalse"} {
+					for _, p := range []string{"none", "ann", "ers", "both", "annfalse", "ann+ersfalse"} {
 						for _, up := range []bool{false, true} {
 							for _, v := range []string{"none", "this", "other"} {
 								for _, f := range []string{"absent", "True", "False"} {
